@@ -180,7 +180,7 @@ def malformed_case(ctx: Ctx, base, eps, mode: str, cls: str, reqs, todo) -> None
 
 
 def _malformed_case(ctx: Ctx, base, eps, mode: str, cls: str, reqs, todo) -> None:
-    bad = nc.inject(ctx.rng, base, mode, cls)
+    bad = nc.inject(ctx.rng, base, mode, cls, eps)
     if bad is None:
         ctx.count("inject-not-applicable:" + cls)
         return
